@@ -99,8 +99,8 @@ theorem quiet_subTrace (sid : StateId) (t : Trace) (h : Quiet t) : subTrace sid 
     have h2 : Quiet t := fun e he => h e (List.mem_cons_of_mem _ he)
     simp only [subTrace, h1.1, ih h2]
 
-theorem scriptCall_notEE (rt : Rt) (c : Call) :
-    match scriptCall rt c with | .enter .. => False | .exit .. => False | _ => True := by
+theorem scriptCall_notEE (rt : Rt) (t : Option Nat) (c : Call) :
+    match scriptCall rt t c with | .enter .. => False | .exit .. => False | _ => True := by
   cases c <;> simp only [scriptCall]
   · cases startReject rt <;> trivial
   · cases stopReject rt <;> trivial
@@ -109,41 +109,48 @@ theorem scriptCall_notEE (rt : Rt) (c : Call) :
     · cases startReject rt <;> trivial
   · cases runReject rt <;> trivial
 
-theorem runScript_quiet (rt : Rt) (sc : Script) : Quiet (runScript rt sc) := by
-  induction sc with
-  | nil => exact quiet_nil
-  | cons op rest ih =>
-    cases op with
-    | obs => exact quiet_cons ⟨rfl, trivial⟩ ih
-    | call c =>
-      exact quiet_cons ⟨rfl, scriptCall_notEE rt c⟩ ih
+theorem scriptOp_notEE (self : Nat) (rt : Rt) (ctx : Ctx) (op : SOp) :
+    match scriptOp self rt ctx op with | .enter .. => False | .exit .. => False | _ => True := by
+  cases op with
+  | obs t => simp only [scriptOp]; cases targetRt self rt ctx t <;> trivial
+  | call t c =>
+    simp only [scriptOp]
+    cases targetRt self rt ctx t with
+    | none => trivial
+    | some r => exact scriptCall_notEE r t c
 
-theorem probe_subTrace (sid : StateId) (mk : Bool → Kind) (p : Option Script) (rt : Rt) :
-    subTrace sid (probe mk p rt) = [] := by
+theorem runScript_quiet (self : Nat) (rt : Rt) (ctx : Ctx) (sc : Script) : Quiet (runScript self rt ctx sc) := by
+  intro ev hev
+  unfold runScript at hev
+  rcases List.mem_map.1 hev with ⟨op, _, rfl⟩
+  exact ⟨rfl, scriptOp_notEE self rt ctx op⟩
+
+theorem probe_subTrace (sid : StateId) (mk : Bool → Kind) (p : Option Script) (self : Nat) (rt : Rt) (ctx : Ctx) :
+    subTrace sid (probe mk p self rt ctx) = [] := by
   unfold probe
   simp only [subTrace, here]
   cases p with
   | none => rfl
-  | some sc => exact quiet_subTrace sid _ (runScript_quiet rt sc)
+  | some sc => exact quiet_subTrace sid _ (runScript_quiet self rt ctx sc)
 
-theorem probe_ownDelta (s : StateId) (mk : Bool → Kind) (p : Option Script) (rt : Rt) :
-    ownDelta s (probe mk p rt) = evDelta s (here (mk p.isSome)) := by
+theorem probe_ownDelta (s : StateId) (mk : Bool → Kind) (p : Option Script) (self : Nat) (rt : Rt) (ctx : Ctx) :
+    ownDelta s (probe mk p self rt ctx) = evDelta s (here (mk p.isSome)) := by
   unfold probe
   simp only [ownDelta]
   cases p with
   | none => simp [ownDelta]
-  | some sc => simp [quiet_ownDelta s _ (runScript_quiet rt sc)]
+  | some sc => simp [quiet_ownDelta s _ (runScript_quiet self rt ctx sc)]
 
-theorem handlerPhase_quiet {Sub : Type} (cs : StateDef Sub) (rt : Rt) (e : EventId) : Quiet (handlerPhase cs rt e).2 := by
+theorem handlerPhase_quiet {Sub : Type} (cs : StateDef Sub) (self : Nat) (rt : Rt) (ctx : Ctx) (e : Event) : Quiet (handlerPhase cs self rt ctx e).2 := by
   unfold handlerPhase
   split
-  · exact quiet_cons ⟨rfl, trivial⟩ (runScript_quiet _ _)
+  · exact quiet_cons ⟨rfl, trivial⟩ (runScript_quiet _ _ _ _)
   · split
-    · exact quiet_cons ⟨rfl, trivial⟩ (runScript_quiet _ _)
+    · exact quiet_cons ⟨rfl, trivial⟩ (runScript_quiet _ _ _ _)
     · exact quiet_nil
 
-theorem routeScan_quiet (sid : StateId) (rt : Rt) (e : EventId) (i : Nat) (rs : List Route) :
-    Quiet (routeScan sid rt e i rs).2 := by
+theorem routeScan_quiet (sid : StateId) (self : Nat) (rt : Rt) (ctx : Ctx) (e : Event) (i : Nat) (rs : List Route) :
+    Quiet (routeScan sid self rt ctx e i rs).2 := by
   induction rs generalizing i with
   | nil => exact quiet_nil
   | cons r rs ih =>
@@ -153,14 +160,14 @@ theorem routeScan_quiet (sid : StateId) (rt : Rt) (e : EventId) (i : Nat) (rs : 
     · split
       · exact quiet_nil
       · rename_i g hg
-        have ht : Quiet (here (.guard sid i e (g.eval e)) :: runScript rt g.script) :=
-          quiet_cons ⟨rfl, trivial⟩ (runScript_quiet _ _)
+        have ht : Quiet (here (.guard sid i e (g.eval e)) :: runScript self rt ctx g.script) :=
+          quiet_cons ⟨rfl, trivial⟩ (runScript_quiet _ _ _ _)
         split
         · exact ht
         · exact quiet_append ht (ih _)
 
 section
-variable {Sub : Type} {I : Sub → Prop} {B : Sub → Trace → Prop} {ops : SubOps Sub}
+variable {Sub : Type} {I : Sub → Prop} {B : Sub → Trace → Prop} {ops : SubOps Ctx Sub}
 
 def cur (m : M Sub) (s : StateId) : Int := if m.rt.curr = some s then 1 else 0
 
@@ -168,10 +175,10 @@ def BalL (B : Sub → Trace → Prop) (m : M Sub) (T : Trace) : Prop :=
   (∀ s, ownDelta s T = cur m s) ∧
   ∀ sid st x, m.findState sid = some st → st.sub = some x → B x (subTrace sid T)
 
-structure SubBal (I : Sub → Prop) (B : Sub → Trace → Prop) (ops : SubOps Sub) : Prop where
-  start : ∀ x T, I x → B x T → B (ops.start x).1 (T ++ (ops.start x).2.2)
-  stop : ∀ x T, I x → B x T → B (ops.stop x).1 (T ++ (ops.stop x).2)
-  run : ∀ x e T, I x → B x T → B (ops.run x e).1 (T ++ (ops.run x e).2.2)
+structure SubBal (I : Sub → Prop) (B : Sub → Trace → Prop) (ops : SubOps Ctx Sub) : Prop where
+  start : ∀ ctx x T, AllBusy ctx → I x → B x T → B (ops.start ctx x).1 (T ++ (ops.start ctx x).2.2)
+  stop : ∀ ctx x T, AllBusy ctx → I x → B x T → B (ops.stop ctx x).1 (T ++ (ops.stop ctx x).2)
+  run : ∀ ctx x e T, AllBusy ctx → I x → B x T → B (ops.run ctx x e).1 (T ++ (ops.run ctx x e).2.2)
 
 /-- the sub-machine of state `c` moved from `x0` to `x1` producing `u` -/
 theorem bal_delegate {m : M Sub} {T : Trace} (hb : BalL B m T) (c : StateId) (x1 : Sub) (u : Trace)
@@ -223,8 +230,8 @@ theorem bal_quiet {m : M Sub} {T : Trace} (hb : BalL B m T) (t : Trace) (hq : Qu
 theorem cur_eq (m : M Sub) (c s : StateId) (hc : m.rt.curr = some c) : cur m s = if c = s then 1 else 0 := by
   simp [cur, hc]
 
-theorem start_bal (hs : SubInv I ops) (hbS : SubBal I B ops) (m : M Sub) (hm : InvL I ops m) (T : Trace)
-    (hb : BalL B m T) : BalL B (start ops m).1 (T ++ (start ops m).2.2) := by
+theorem start_bal (hs : SubInv I ops) (hbS : SubBal I B ops) (ctx : Ctx) (hctx : AllBusy ctx) (m : M Sub) (hm : InvL I ops m) (T : Trace)
+    (hb : BalL B m T) : BalL B (start ops ctx m).1 (T ++ (start ops ctx m).2.2) := by
   unfold start
   rw [startReject_ok hm.1]
   by_cases hr : m.rt.running = true
@@ -237,8 +244,8 @@ theorem start_bal (hs : SubInv I ops) (hbS : SubBal I B ops) (m : M Sub) (hm : I
       simp only []
       have hid := findState_id _ _ _ hf
       have hb2 := bal_own hb ⟨true, some st.id, m.rt.last, m.rt.next, m.rt.cbLevel + 1 - 1⟩
-        (probe (.enter st.id 0) st.enter ⟨true, some st.id, m.rt.last, m.rt.next, m.rt.cbLevel + 1⟩)
-        (fun sid => probe_subTrace sid _ _ _)
+        (probe (.enter st.id ev0) st.enter m.mid ⟨true, some st.id, m.rt.last, m.rt.next, m.rt.cbLevel + 1⟩ ctx)
+        (fun sid => probe_subTrace sid _ _ _ _ _)
         (by intro s; rw [probe_ownDelta]; simp [evDelta, here, cur, hcur])
       cases hsb : st.sub with
       | none => simp only []; exact hb2
@@ -246,12 +253,14 @@ theorem start_bal (hs : SubInv I ops) (hbS : SubBal I B ops) (m : M Sub) (hm : I
         simp only []
         have hI := (hm.2 m.init st sub hf hsb).1
         have hBx := hb2.2 st.id st sub (by rw [hid]; exact hf) hsb
-        have := bal_delegate hb2 st.id (ops.start sub).1 (ops.start sub).2.2 (hbS.start sub _ hI hBx)
+        have hdown : AllBusy ((m.mid, (⟨true, some st.id, m.rt.last, m.rt.next, m.rt.cbLevel + 1⟩ : Rt)) :: ctx) :=
+          allBusy_cons m.mid ⟨rfl, by simp⟩ hctx
+        have := bal_delegate hb2 st.id _ _ (hbS.start _ sub _ hdown hI hBx)
         rw [List.append_assoc] at this
         exact this
 
-theorem stop_bal (hs : SubInv I ops) (hbS : SubBal I B ops) (m : M Sub) (hm : InvL I ops m) (T : Trace)
-    (hb : BalL B m T) : BalL B (stop true ops m).1 (T ++ (stop true ops m).2) := by
+theorem stop_bal (hs : SubInv I ops) (hbS : SubBal I B ops) (ctx : Ctx) (hctx : AllBusy ctx) (m : M Sub) (hm : InvL I ops m) (T : Trace)
+    (hb : BalL B m T) : BalL B (stop ops ctx m).1 (T ++ (stop ops ctx m).2) := by
   unfold stop
   rw [stopReject_ok hm.1]
   by_cases hr : m.rt.running = true
@@ -262,27 +271,29 @@ theorem stop_bal (hs : SubInv I ops) (hbS : SubBal I B ops) (m : M Sub) (hm : In
     | none =>
       simp only [List.nil_append]
       exact bal_own hb ⟨false, none, m.rt.last, m.rt.next, m.rt.cbLevel + 1 - 1⟩ _
-        (fun sid => probe_subTrace sid _ _ _)
+        (fun sid => probe_subTrace sid _ _ _ _ _)
         (by intro s; rw [probe_ownDelta, cur_eq m c s hc]; simp [evDelta, here]; split <;> simp)
     | some sub =>
       simp only []
       have hfind := find_of_stateOf_sub m c sub hsb
       have hI := (hm.2 c _ sub hfind hsb).1
       have hBx := hb.2 c _ sub hfind hsb
-      have hb1 := bal_delegate hb c (ops.stop sub).1 (ops.stop sub).2 (hbS.stop sub _ hI hBx)
+      have hdown : AllBusy ((m.mid, (⟨true, some c, m.rt.last, m.rt.next, m.rt.cbLevel + 1⟩ : Rt)) :: ctx) :=
+        allBusy_cons m.mid ⟨rfl, by simp⟩ hctx
+      have hb1 := bal_delegate hb c _ _ (hbS.stop _ sub _ hdown hI hBx)
       have := bal_own hb1 ⟨false, none, m.rt.last, m.rt.next, m.rt.cbLevel + 1 - 1⟩
-        (probe (.exit c 0) (m.stateOf c).exit ⟨m.rt.running, m.rt.curr, m.rt.last, m.rt.next, m.rt.cbLevel + 1⟩)
-        (fun sid => probe_subTrace sid _ _ _)
+        (probe (.exit c ev0) (m.stateOf c).exit m.mid ⟨true, some c, m.rt.last, m.rt.next, m.rt.cbLevel + 1⟩ ctx)
+        (fun sid => probe_subTrace sid _ _ _ _ _)
         (by intro s; rw [probe_ownDelta, cur_eq _ c s (by simpa using hc)]; simp [evDelta, here]; split <;> simp)
       rw [List.append_assoc] at this
       exact this
   · simp only [hr, if_false, Bool.false_eq_true, List.append_nil]
     exact hb
 
-theorem transition_bal (hs : SubInv I ops) (hbS : SubBal I B ops) (m : M Sub) (hm : InvL I ops m) (T : Trace)
-    (hb : BalL B m T) (c : StateId) (hc : m.rt.curr = some c)
-    (e : EventId) (nextId : StateId) (ridx : Option Nat) (action : Option Script) :
-    BalL B (transition ops m c e nextId ridx action).1 (T ++ (transition ops m c e nextId ridx action).2.2) := by
+theorem transition_bal (hs : SubInv I ops) (hbS : SubBal I B ops) (ctx : Ctx) (hctx : AllBusy ctx) (m : M Sub) (hm : InvL I ops m) (T : Trace)
+    (hb : BalL B m T) (c : StateId) (hr : m.rt.running = true) (hc : m.rt.curr = some c)
+    (e : Event) (nextId : StateId) (ridx : Option Nat) (action : Option Script) :
+    BalL B (transition ops ctx m c e nextId ridx action).1 (T ++ (transition ops ctx m c e nextId ridx action).2.2) := by
   unfold transition
   cases hres : m.resolve nextId with
   | none =>
@@ -291,10 +302,10 @@ theorem transition_bal (hs : SubInv I ops) (hbS : SubBal I B ops) (m : M Sub) (h
   | some ts =>
     simp only []
     have hD := bal_own hb ⟨m.rt.running, some ts.id, some c, none, m.rt.cbLevel + 1 - 1⟩
-      (probe (.exit c e) (m.stateOf c).exit ⟨m.rt.running, m.rt.curr, m.rt.last, some ts.id, m.rt.cbLevel + 1⟩
-        ++ probe (.action c ridx e) action ⟨m.rt.running, none, some c, some ts.id, m.rt.cbLevel + 1⟩
-        ++ probe (.enter ts.id e) ts.enter ⟨m.rt.running, some ts.id, some c, none, m.rt.cbLevel + 1⟩
-        ++ probe (.notify c ts.id e) m.cb ⟨m.rt.running, some ts.id, some c, none, m.rt.cbLevel + 1⟩)
+      (probe (.exit c e) (m.stateOf c).exit m.mid ⟨m.rt.running, m.rt.curr, m.rt.last, some ts.id, m.rt.cbLevel + 1⟩ ctx
+        ++ probe (.action c ridx e) action m.mid ⟨m.rt.running, none, some c, some ts.id, m.rt.cbLevel + 1⟩ ctx
+        ++ probe (.enter ts.id e) ts.enter m.mid ⟨m.rt.running, some ts.id, some c, none, m.rt.cbLevel + 1⟩ ctx
+        ++ probe (.notify c ts.id e) m.cb m.mid ⟨m.rt.running, some ts.id, some c, none, m.rt.cbLevel + 1⟩ ctx)
       (by intro sid; simp only [subTrace_append, probe_subTrace, List.append_nil])
       (by
         intro s
@@ -307,38 +318,40 @@ theorem transition_bal (hs : SubInv I ops) (hbS : SubBal I B ops) (m : M Sub) (h
       simp only []
       have hfind := resolve_sub m nextId ts sub hres hsb
       have hI := (hm.2 ts.id ts sub hfind hsb).1
-      have hI1 := (hs.start sub hI).1
+      have hdown : AllBusy ((m.mid, (⟨m.rt.running, some ts.id, some c, none, m.rt.cbLevel + 1⟩ : Rt)) :: ctx) :=
+        allBusy_cons m.mid ⟨hr, by simp⟩ hctx
+      have hI1 := (hs.start _ sub hdown hI).1
       have hBx := hD.2 ts.id ts sub hfind hsb
-      have hB1 := hbS.start sub _ hI hBx
-      have hB2 := hbS.run (ops.start sub).1 e _ hI1 hB1
+      have hB1 := hbS.start _ sub _ hdown hI hBx
+      have hB2 := hbS.run _ _ e _ hdown hI1 hB1
       rw [List.append_assoc] at hB2
-      have := bal_delegate hD ts.id (ops.run (ops.start sub).1 e).1 _ hB2
+      have := bal_delegate hD ts.id _ _ hB2
       rw [List.append_assoc] at this
       exact this
 
-theorem runOwn_bal (hs : SubInv I ops) (hbS : SubBal I B ops) (m : M Sub) (hm : InvL I ops m) (T : Trace)
-    (hb : BalL B m T) (c : StateId) (hc : m.rt.curr = some c) (e : EventId) :
-    BalL B (runOwn ops m c e).1 (T ++ (runOwn ops m c e).2.2) := by
+theorem runOwn_bal (hs : SubInv I ops) (hbS : SubBal I B ops) (ctx : Ctx) (hctx : AllBusy ctx) (m : M Sub) (hm : InvL I ops m) (T : Trace)
+    (hb : BalL B m T) (c : StateId) (hr : m.rt.running = true) (hc : m.rt.curr = some c) (e : Event) :
+    BalL B (runOwn ops ctx m c e).1 (T ++ (runOwn ops ctx m c e).2.2) := by
   unfold runOwn
-  have hH := handlerPhase_quiet (m.stateOf c) ⟨m.rt.running, m.rt.curr, m.rt.last, m.rt.next, m.rt.cbLevel + 1⟩ e
-  have hS := routeScan_quiet c ⟨m.rt.running, m.rt.curr, m.rt.last, m.rt.next, m.rt.cbLevel + 1⟩ e 0 (m.stateOf c).routes
+  have hH := handlerPhase_quiet (m.stateOf c) m.mid ⟨m.rt.running, m.rt.curr, m.rt.last, m.rt.next, m.rt.cbLevel + 1⟩ ctx e
+  have hS := routeScan_quiet c m.mid ⟨m.rt.running, m.rt.curr, m.rt.last, m.rt.next, m.rt.cbLevel + 1⟩ ctx e 0 (m.stateOf c).routes
   simp only []
   split
   · split
     · exact bal_quiet hb _ (quiet_append hH hS)
     · rename_i i r _
       have h1 := bal_quiet hb _ (quiet_append hH hS)
-      have := transition_bal hs hbS m hm _ h1 c hc e r.to (some i) r.action
+      have := transition_bal hs hbS ctx hctx m hm _ h1 c hr hc e r.to (some i) r.action
       rw [List.append_assoc] at this
       exact this
   · have h1 := bal_quiet hb _ hH
-    have := transition_bal hs hbS m hm _ h1 c hc e
-      (handlerPhase (m.stateOf c) ⟨m.rt.running, m.rt.curr, m.rt.last, m.rt.next, m.rt.cbLevel + 1⟩ e).1 none none
+    have := transition_bal hs hbS ctx hctx m hm _ h1 c hr hc e
+      (handlerPhase (m.stateOf c) m.mid ⟨m.rt.running, m.rt.curr, m.rt.last, m.rt.next, m.rt.cbLevel + 1⟩ ctx e).1 none none
     rw [List.append_assoc] at this
     exact this
 
-theorem run_bal (hs : SubInv I ops) (hbS : SubBal I B ops) (m : M Sub) (hm : InvL I ops m) (T : Trace)
-    (hb : BalL B m T) (e : EventId) : BalL B (run ops m e).1 (T ++ (run ops m e).2.2) := by
+theorem run_bal (hs : SubInv I ops) (hbS : SubBal I B ops) (ctx : Ctx) (hctx : AllBusy ctx) (m : M Sub) (hm : InvL I ops m) (T : Trace)
+    (hb : BalL B m T) (e : Event) : BalL B (run ops ctx m e).1 (T ++ (run ops ctx m e).2.2) := by
   unfold run
   rw [runReject_ok hm.1]
   by_cases hr : m.rt.running = true
@@ -346,32 +359,34 @@ theorem run_bal (hs : SubInv I ops) (hbS : SubBal I B ops) (m : M Sub) (hm : Inv
     obtain ⟨c, hc⟩ := curr_of_running hm.1 hr
     simp only [hc]
     cases hsb : (m.stateOf c).sub with
-    | none => simp only []; exact runOwn_bal hs hbS m hm T hb c hc e
+    | none => simp only []; exact runOwn_bal hs hbS ctx hctx m hm T hb c hr hc e
     | some sub =>
       simp only []
       have hfind := find_of_stateOf_sub m c sub hsb
       have hI := (hm.2 c _ sub hfind hsb).1
-      have h1 := hs.run sub e hI
+      have hdown : AllBusy ((m.mid, (⟨true, some c, m.rt.last, m.rt.next, m.rt.cbLevel + 1⟩ : Rt)) :: ctx) :=
+        allBusy_cons m.mid ⟨rfl, by simp⟩ hctx
+      have h1 := hs.run _ sub e hdown hI
       have hBx := hb.2 c _ sub hfind hsb
-      have hB1 := hbS.run sub e _ hI hBx
+      have hB1 := hbS.run _ sub e _ hdown hI hBx
       split
       · exact bal_delegate hb c _ _ hB1
-      · have h2 := hs.stop (ops.run sub e).1 h1.1
-        have hB2 := hbS.stop (ops.run sub e).1 _ h1.1 hB1
+      · have h2 := hs.stop _ _ hdown h1.1
+        have hB2 := hbS.stop _ _ _ hdown h1.1 hB1
         rw [List.append_assoc] at hB2
-        have hb1 := bal_delegate hb c (ops.stop (ops.run sub e).1).1 _ hB2
-        have hm1 : InvL I ops (m.setSub c (ops.stop (ops.run sub e).1).1) := invL_setSub hm h2.1 (fun _ => h2.2.1)
-        have := runOwn_bal hs hbS _ hm1 _ hb1 c (by simpa using hc) e
+        have hb1 := bal_delegate hb c _ _ hB2
+        have hm1 := invL_setSub (c := c) hm h2.1 (fun _ => h2.2.1)
+        have := runOwn_bal hs hbS ctx hctx _ hm1 _ hb1 c (by simpa using hr) (by simpa using hc) e
         rw [List.append_assoc] at this
         exact this
   · simp only [hr, if_false, Bool.false_eq_true, List.append_nil]
     exact hb
 
 theorem level_subBal (hs : SubInv I ops) (hbS : SubBal I B ops) :
-    SubBal (InvL I ops) (BalL B) (levelOps true ops) where
-  start := fun m T hm hb => start_bal hs hbS m hm T hb
-  stop := fun m T hm hb => stop_bal hs hbS m hm T hb
-  run := fun m e T hm hb => run_bal hs hbS m hm T hb e
+    SubBal (InvL I ops) (BalL B) (levelOps ops) where
+  start := fun ctx m T hctx hm hb => start_bal hs hbS ctx hctx m hm T hb
+  stop := fun ctx m T hctx hm hb => stop_bal hs hbS ctx hctx m hm T hb
+  run := fun ctx m e T hctx hm hb => run_bal hs hbS ctx hctx m hm T hb e
 
 end
 
@@ -381,9 +396,9 @@ def Bal : (n : Nat) → Mach n → Trace → Prop
   | n + 1 => BalL (Bal n)
 
 theorem empty_subBal : SubBal (fun (_ : Empty) => True) (fun (_ : Empty) _ => True) emptyOps :=
-  ⟨fun x => x.elim, fun x => x.elim, fun x => x.elim⟩
+  ⟨fun _ x => x.elim, fun _ x => x.elim, fun _ x => x.elim⟩
 
-theorem bal_all : ∀ n, SubBal (Inv n) (Bal n) (subOps true n)
+theorem bal_all : ∀ n, SubBal (Inv n) (Bal n) (subOps n)
   | 0 => level_subBal empty_subInv empty_subBal
   | n + 1 => level_subBal (inv_all n) (bal_all n)
 
